@@ -148,14 +148,17 @@ func (opt *OperationTracker) unsafePinInfo(ctx context.Context, op *Operation) a
 			},
 		}
 	}
+	// read status, timestamp and error together: an operation may change
+	// phase between separate reads.
+	status, ts, errStr := op.StatusSnapshot()
 	return api.PinInfo{
 		Cid:  op.Cid(),
 		Peer: opt.pid,
 		PinInfoShort: api.PinInfoShort{
 			PeerName: opt.peerName,
-			Status:   op.ToTrackerStatus(),
-			TS:       op.Timestamp(),
-			Error:    op.Error(),
+			Status:   status,
+			TS:       ts,
+			Error:    errStr,
 		},
 	}
 }
